@@ -170,44 +170,46 @@ def mString : Src → Option Nat
   | q :: rest => if q != ch '"' then none else ((strBody rest).headD none).map (· + 1)
   | [] => none
 
+/-- the token patterns in the order of the `switch` in `scanTokens` -/
+def matchers : List (TT × (Src → Option Nat)) :=
+  [(.boolean, mBoolean), (.complex, mComplex), (.delimiter, mDelimiter), (.eol, mEol), (.float, mFloat),
+   (.hexadecimal, mHex), (.integer, mInteger), (.nil, mNil), (.rune, mRune), (.space, mSpace),
+   (.string, mString), (.type, mType)]
+
+def firstMatch : List (TT × (Src → Option Nat)) → Src → Option (TT × Nat)
+  | [], _ => none
+  | (tt, m) :: rest, src => match m src with
+    | some n => some (tt, n)
+    | none => firstMatch rest src
+
 /-- the `switch` of `scanTokens`: first pattern (in source order) that matches -/
-def matchToken (src : Src) : Option (TT × Nat) :=
-  let try_ (tt : TT) (m : Option Nat) (k : Unit → Option (TT × Nat)) : Option (TT × Nat) :=
-    match m with | some n => some (tt, n) | none => k ()
-  try_ .boolean (mBoolean src) fun _ =>
-  try_ .complex (mComplex src) fun _ =>
-  try_ .delimiter (mDelimiter src) fun _ =>
-  try_ .eol (mEol src) fun _ =>
-  try_ .float (mFloat src) fun _ =>
-  try_ .hexadecimal (mHex src) fun _ =>
-  try_ .integer (mInteger src) fun _ =>
-  try_ .nil (mNil src) fun _ =>
-  try_ .rune (mRune src) fun _ =>
-  try_ .space (mSpace src) fun _ =>
-  try_ .string (mString src) fun _ =>
-  try_ .type (mType src) fun _ => none
+def matchToken (src : Src) : Option (TT × Nat) := firstMatch matchers src
+
+/-- line/column bookkeeping of `foundToken`: every newline in the matched text starts a new
+    line (`line_ += count`, `position_ = indexOfLastEOL`), every other rune advances the column -/
+def advance (lc : Nat × Nat) (text : List Nat) : Nat × Nat :=
+  text.foldl (fun lc c => if c == 10 then (lc.1 + 1, 1) else (lc.1, lc.2 + 1)) lc
 
 /-- `scanTokens`: the token stream the scanner goroutine puts on the queue
     (spaces are matched but not emitted; an unmatched rune becomes an error token and ends
     the scan; the stream always ends with EOF) -/
-def scanLoop : Nat → Src → Nat → Nat → List Token
-  | 0, _, line, pos => [{ tt := .eof, value := [], line := line, pos := pos }]
-  | _, [], line, pos => [{ tt := .eof, value := [], line := line, pos := pos }]
-  | fuel+1, c :: cs, line, pos =>
+def scanLoop : Nat → Src → Nat × Nat → List Token
+  | 0, _, lc => [{ tt := .eof, value := [], line := lc.1, pos := lc.2 }]
+  | _, [], lc => [{ tt := .eof, value := [], line := lc.1, pos := lc.2 }]
+  | fuel+1, c :: cs, lc =>
     match matchToken (c :: cs) with
     | none =>
-      [{ tt := .error, value := [c], line := line, pos := pos },
-       { tt := .eof, value := [], line := line, pos := pos }]
+      [{ tt := .error, value := [c], line := lc.1, pos := lc.2 },
+       { tt := .eof, value := [], line := lc.1, pos := lc.2 }]
     | some (tt, n) =>
       let n := if n == 0 then 1 else n
       let text := (c :: cs).take n
       let rest := (c :: cs).drop n
-      let line' := if tt == .eol then line + 1 else line
-      let pos' := if tt == .eol then 1 else pos + n
-      if tt == .space then scanLoop fuel rest line' pos'
-      else { tt := tt, value := text, line := line, pos := pos } :: scanLoop fuel rest line' pos'
+      let lc' := advance lc text
+      if tt == .space then scanLoop fuel rest lc'
+      else { tt := tt, value := text, line := lc.1, pos := lc.2 } :: scanLoop fuel rest lc'
 
-def scan (src : Src) : List Token := scanLoop (src.length + 1) src 1 1
+def scan (src : Src) : List Token := scanLoop (src.length + 1) src (1, 1)
 
 end Cdcn
 end CM
